@@ -745,6 +745,8 @@ theorem rstep_rel (p : RPair) (s : State) (h : RelS p s) (op : Op) (ha : isArray
     · right; simp [rstep, step, hv]
   case aresize v n x =>
     exact unary p s h v (fun r => resize r n x) (fun a => a.resize n x) (fun r a hr => Or.inl (resize_rel r a hr n x))
+  case aresized v n =>
+    exact unary p s h v (fun r => resize r n 0) (fun a => a.resize n 0) (fun r a hr => Or.inl (resize_rel r a hr n 0))
   case aappend v x =>
     exact unary p s h v (fun r => append r x) (fun a => a.append x) (fun r a hr => by
       obtain ⟨r', ra, e1, e2, e3, _⟩ := append_rel r a hr x
